@@ -409,9 +409,8 @@ def main(tier, seed, replay=None):
 
     # 1. design level: the algorithm as it is in the tree refines the spec
     fixed = tlc.run("MC_HttpFile", IMPL_CFG.format(
-        maxlen=6 if tier == "quick" else 8,
-        depth=4 if tier == "quick" else 5, f="TRUE"), timeout=1500,
-        coverage=(tier == "thorough"))
+        maxlen=6 if tier == "quick" else 7,
+        depth=4 if tier == "quick" else 5, f="TRUE"), timeout=1500)
     ev.add_tlc("MC_HttpFile (HttpFileImpl => HttpFileSpec, repaired flags)",
                fixed)
     ev.extra["design_refines_spec"] = bool(fixed.ok)
